@@ -44,6 +44,51 @@ ZOO = ["u", "t", "f", "z",
        "pu", "ps:115", "pn1", "po0x0", "pps:97", "pr7ff8000000000000", "pz"]
 
 
+def _big():
+    """64-bit integers that differ by 1..3 around the magnitudes where a double stops being exact (2^53) and at the
+    ends of the signed / unsigned ranges, grouped in clusters; and doubles at the same magnitudes."""
+    import struct
+    cl = []
+    for base in (2 ** 53, 2 ** 62, 2 ** 63 - 1, 2 ** 63, 2 ** 64 - 1):
+        cl.append(["n%d" % v for v in range(base - 3, base + 4) if 0 <= v <= 2 ** 64 - 1])
+    for base in (2 ** 53, 2 ** 62, 2 ** 63 - 1, -(2 ** 53), -(2 ** 62), -(2 ** 63)):
+        cl.append(["i%d" % v for v in range(base - 3, base + 4) if -(2 ** 63) <= v <= 2 ** 63 - 1])
+    cl.append(["r%016x" % struct.unpack("<Q", struct.pack("<d", float(v)))[0]
+               for v in (2 ** 53, 2 ** 53 + 2, 2 ** 62, 2 ** 63, 2 ** 64, -(2 ** 53), -(2 ** 53) - 2, -(2 ** 63))])
+    return cl
+
+
+BIG_CLUSTERS = _big()
+BIG = [t for c in BIG_CLUSTERS for t in c]
+
+
+def num_of(tok):
+    """Exact numeric reading of a number token (Python int for n/i, float for r)."""
+    import struct
+    if tok[0] in "ni":
+        return int(tok[1:])
+    if tok[0] == "r":
+        return struct.unpack("<d", struct.pack("<Q", int(tok[1:], 16)))[0]
+    return None
+
+
+def magnitude_sorted(ctx, line, inp, out, asc):
+    """'numbers of one kind compare by magnitude' for a Sort result: an array holding numbers of ONE kind must come
+    back in exact numeric order (integers read as Python ints, never through double)."""
+    if len(inp) < 2 or inp[0][0] not in "nir" or any(t[0] != inp[0][0] for t in inp) or any(is_nan(t) for t in inp):
+        return
+    try:
+        got = [num_of(t) for t in out]
+    except ValueError:
+        return
+    exp = sorted((num_of(t) for t in inp), reverse=not asc)
+    if got != exp:
+        k = next((i for i in range(min(len(got), len(exp))) if got[i] != exp[i]), 0)
+        ctx.fail("sort:magnitude", "Sort of same-kind numbers is not in numeric order at position %d (%s where %s belongs): %s -> %s" % (
+            k, got[k] if k < len(got) else "-", exp[k] if k < len(exp) else "-", line[:300], ",".join(out)[:300]),
+            {"line": line, "impl_output": ",".join(out)})
+
+
 def depth(tok):
     d = 0
     while tok.startswith("p"):
@@ -173,6 +218,10 @@ def strings_stage(ctx, exe, drv):
 def values_stage(ctx, exe, drv):
     rng = ctx.rng
     lines = ["ordval %s %s" % (a, b) for a in ZOO for b in ZOO]
+    # integers 1..3 apart around 2^53 / 2^62 / 2^63 / 2^64 and the signed extremes, all kinds against each other,
+    # a few behind pointers, and against the small numbers of the zoo
+    bigp = BIG + ["p" + c[len(c) // 2] for c in BIG_CLUSTERS] + [z for z in ZOO if z[0] in "nir" and not is_nan(z)][::3]
+    lines += ["ordval %s %s" % (a, b) for a in bigp for b in bigp]
     corpus = os.path.join(core.VERIF, "corpus", "C15", "values.txt")
     if os.path.exists(corpus):
         lines = [l.strip() for l in open(corpus) if l.strip() and not l.startswith("#")] + lines
@@ -183,15 +232,9 @@ def values_stage(ctx, exe, drv):
         if len(o) == 6:
             res[(t[1], t[2])] = o
     # "numbers of one kind compare by magnitude": an independent numeric reading of same-kind number pairs
-    import struct
-
-    def num_of(tok):
-        if tok[0] == "n" or tok[0] == "i":
-            return int(tok[1:])
-        if tok[0] == "r":
-            return struct.unpack("<d", struct.pack("<Q", int(tok[1:], 16)))[0]
-        return None
-    for (a, b), o in res.items():
+    # (behind any number of pointers: the operators compare the targets)
+    for (a0, b0), o in res.items():
+        a, b = a0.lstrip("p"), b0.lstrip("p")
         if a[0] in "nir" and a[0] == b[0] and not is_nan(a) and not is_nan(b):
             x, y = num_of(a), num_of(b)
             exp = "".join("1" if t else "0" for t in (x < y, x <= y, x > y, x >= y, x == y, x != y))
@@ -207,6 +250,9 @@ def values_stage(ctx, exe, drv):
     else:
         clean = [z for z in ZOO if known_class([z]) is None][::2]
         trip = list(itertools.product(clean, repeat=3)) + [tuple(rng.choice(ZOO) for _ in range(3)) for _ in range(12000)]
+    for c in BIG_CLUSTERS:                                   # every triple inside a cluster of near-equal big numbers
+        trip += list(itertools.product(c, repeat=3))
+    trip += [tuple(rng.choice(bigp) for _ in range(3)) for _ in range(6000 if not ctx.thorough else 60000)]
     for a, b, c in trip:
         olines.append("ordoracletri %s %s %s" % (res[(a, b)], res[(b, c)], res[(a, c)])); meta.append((a, b, c))
     verdicts = oracle(ctx, drv, olines)
@@ -258,6 +304,19 @@ def sorts_stage(ctx, exe, drv):
         if rng.random() < 0.3:
             arr = [rng.choice(arr) for _ in range(n)] if arr else arr       # many duplicates
         lines.append("ordsortv %s %s" % (rng.choice("01"), ",".join(arr) if arr else "-"))
+    for c in BIG_CLUSTERS:                                   # near-equal big numbers inside arrays being sorted
+        for asc in "10":
+            for arr in [c, c[::-1], c[1:] + c[:1]] + [[x, y] for x in c for y in c if x != y][:: 1 if T else 3] + [rng.sample(c, len(c)) for _ in range(4)]:
+                lines.append("%s %s %s" % (rng.choice(["ordsortv", "ordsorta"]), asc, ",".join(arr)))
+    for _ in range(300 if not T else 6000):
+        kind = rng.choice("nni")
+        pool = [t for c in BIG_CLUSTERS for t in c if t[0] == kind] + (["n0", "n1"] if kind == "n" else ["i0", "i-1", "i1"])
+        arr = [rng.choice(pool) for _ in range(rng.randrange(2, 40))]
+        lines.append("ordsortv %s %s" % (rng.choice("01"), ",".join(arr)))
+        if rng.random() < 0.3:
+            lines.append("ordsortn %s %s %s" % (rng.choice("01"), kind, ",".join(arr)))
+        if rng.random() < 0.3:                               # mixed kinds at these magnitudes (ordered by kind rank, then magnitude)
+            lines.append("ordsortv %s %s" % (rng.choice("01"), ",".join(rng.choice(BIG) for _ in range(rng.randrange(2, 30)))))
     impl, model = run_both(ctx, exe, drv, "value-array-sort", lines, nontrivial=lambda l: "," in l)
     # already sorted / reversed inputs: feed the implementation's own outputs back in both directions
     again = []
@@ -270,10 +329,12 @@ def sorts_stage(ctx, exe, drv):
         if o.startswith("FAULT") or o == "bad-op":
             continue
         t = l.split(" ")
-        olines.append("ordoraclesort %s %s" % (t[2], o)); meta.append(l)
+        olines.append("ordoraclesort %s %s" % (t[-1], o)); meta.append(l)
+        if t[-1] != "-":
+            magnitude_sorted(ctx, l, t[-1].split(","), o.split(" ")[0].split(","), t[1] == "1")
     for v, l, ol in zip(oracle(ctx, drv, olines), meta, olines):
         if v != "ok":
-            toks = [] if l.split(" ")[2] == "-" else l.split(" ")[2].split(",")
+            toks = [] if l.split(" ")[-1] == "-" else l.split(" ")[-1].split(",")
             key = (v in ("not-ordered", "not-a-chain") and known_class(toks)) or ("sort:" + v)
             ctx.fail(key, "Sort result is '%s' (by the implementation's own comparisons): %s -> %s" % (v, l, ol.split(" ")[2]), {"line": l, "impl_output": ol.split(" ")[2]})
     ctx.count("value-array-sort-oracle", len(olines), len(set(olines)))
@@ -447,6 +508,8 @@ def sort_oracles(ctx, drv, stream, lines, impl):
             olines.append("ordoraclesort %s %s %s %s" % (",".join(inp[s0:e0]) or "-", ",".join(out[s0:e0]) or "-", r[1], r[2])); meta.append(l)
         else:
             olines.append("ordoraclesort %s %s" % (t[-1], o)); meta.append(l)
+            if t[-1] != "-":
+                magnitude_sorted(ctx, l, t[-1].split(","), r[0].split(","), t[1] == "1")
     for v, l, ol in zip(oracle(ctx, drv, olines), meta, olines):
         if v != "ok":
             toks = [] if l.split(" ")[-1] == "-" else l.split(" ")[-1].split(",")
